@@ -328,6 +328,16 @@ func genProgram(c *worker.Ctx) *lintProgram {
 		p.desc = "include:twice-no-cycle"
 		p.modules["m0"] = "set req.http.X-A = \"m\";\n"
 		add("sub", "sub inc_user {\n  include \"m0"+ext()+"\";\n  if (req.http.X-A) {\n    include \"m0"+ext()+"\";\n  }\n}\n")
+	case 6:
+		// a valid module of declarations, included where statements are expected:
+		// it fails to parse when the linter reaches the include, in the middle of linting
+		p.desc = "include:declarations-module-in-sub"
+		p.modules["m0"] = "sub helper_m0 { set req.http.X-A = \"m\"; }\n"
+		add("sub", "sub inc_user {\n  include \"m0"+ext()+"\";\n}\n")
+	case 7:
+		p.desc = "include:syntax-error-in-sub"
+		p.modules["m0"] = "set req.http.X-A = \"m\";\nset = ;\n"
+		add("sub", "sub inc_user {\n  if (req.http.X-A) {\n    include \"m0"+ext()+"\";\n  }\n}\n")
 	case 0:
 		p.desc = "include:missing"
 		add("other", "include \"nope\";\n")
